@@ -21,6 +21,7 @@ import (
 	"sync/atomic"
 	"time"
 
+	"github.com/taurusgroup/multi-party-sig/pkg/math/sample"
 	"github.com/taurusgroup/multi-party-sig/pkg/pool"
 )
 
@@ -733,11 +734,74 @@ func (c *Ctx) poolDefault() {
 	}
 }
 
+// overlapReader: a deterministic random stream that is NOT safe for concurrent use and notices when two Read calls
+// overlap. Each Read hands out the next block (a safe Blum prime of the fixture, so the search that reads it ends at once).
+type overlapReader struct {
+	blocks  [][]byte
+	next    int
+	active  int32
+	overlap int32
+	mu      sync.Mutex
+	served  []int
+}
+
+func (r *overlapReader) Read(p []byte) (int, error) {
+	if atomic.AddInt32(&r.active, 1) > 1 {
+		atomic.StoreInt32(&r.overlap, 1)
+	}
+	time.Sleep(3 * time.Millisecond) // a slow source: concurrent callers are inside Read together unless serialised
+	r.mu.Lock()
+	i := r.next % len(r.blocks)
+	r.next++
+	r.served = append(r.served, i)
+	n := copy(p, r.blocks[i])
+	r.mu.Unlock()
+	atomic.AddInt32(&r.active, -1)
+	return n, nil
+}
+
+// sample.Paillier draws its two primes through pool.Search from ONE caller-supplied reader: whatever the interleaving of the
+// workers, their reads must be serialised (pool.LockedReader), so a reader that is not safe for concurrent use sees no
+// overlapping calls and the two primes come from two different blocks of the stream
+func (c *Ctx) poolPrimeSearch() {
+	installPrimeHook(0)
+	sample.PaillierPrimeHook = nil
+	for _, W := range []int{2, 4, 8} {
+		start := c.Intn(len(fixturePrimes))
+		rd := &overlapReader{}
+		for k := 0; k < 24; k++ {
+			rd.blocks = append(rd.blocks, fixturePrimes[(start+k)%len(fixturePrimes)].Bytes())
+		}
+		in := J{"W": W, "start": start}
+		type out struct{ p, q string }
+		done := make(chan out, 1)
+		go func() {
+			pl := pool.NewPool(W)
+			defer pl.TearDown()
+			p, q := sample.Paillier(rd, pl)
+			done <- out{hx(p.Bytes()), hx(q.Bytes())}
+		}()
+		select {
+		case o := <-done:
+			from := 0
+			for _, b := range rd.blocks {
+				if hx(b) == o.p || hx(b) == o.q {
+					from++
+				}
+			}
+			c.Emit("primesearch", in, J{"overlap": atomic.LoadInt32(&rd.overlap) == 1, "distinct": o.p != o.q, "fromStream": from == 2})
+		case <-time.After(60 * time.Second):
+			c.Emit("primesearch", in, J{"outcome": "HANG", "detail": "sample.Paillier did not return within 60 s on a stream of safe primes"})
+		}
+	}
+}
+
 func init() {
 	register("pool", func(c *Ctx) {
 		thorough := c.Tier == "thorough"
-		// 0. default-sized pools
+		// 0. default-sized pools; the prime search through the pool
 		c.poolDefault()
+		c.poolPrimeSearch()
 		// 1. nil pool
 		for k := 0; k < 40; k++ {
 			c.poolNil(k)
